@@ -134,7 +134,7 @@ def case_strategy(max_depth=6):
     import gen
 
     map_fn = st.sampled_from([None, [["app", "m"]], [["app", "m"]], [["raisearg", "E1"]]])
-    err_fn = st.sampled_from([None, None, [["app", "h"]], [["reraise"]], [["raisearg", "E2"]], [["retexc"]]])
+    err_fn = st.sampled_from([None, None, [["app", "h"]], [["reraise"]], [["raisearg", "E2"]], [["retexc"]], [["ret", None]], [["ret", 0]]])
     flat_fn = st.sampled_from([None, [["futarg", "done"]], [["futarg", "done"]], [["futarg", "err", "E2"]], [["raisearg", "E1"]], [["nonfut"]]])
 
     flat_err = st.sampled_from([None, None, [["futarg", "done"]], [["futarg", "err", "E3"]], [["raisearg", "E2"]], [["reraise"]], [["nonfut"]]])
@@ -164,6 +164,11 @@ def case_strategy(max_depth=6):
             fname = "f%d" % i
             names.append(fname)
             script = draw(gen.simple_call_scripts(4))
+            if base["kind"] == "pool" and not any(l.get("err") for l in layers) and draw(st.integers(0, 7)) == 0:
+                # (no error functions in the stack: one that re-raises would raise a BaseException from user code on a library
+                # thread, which neither the library nor the stdlib's callback invoker promises to survive)
+                # the last attempt ends with a BaseException that is not an Exception (a pool worker stores it on the future)
+                script = list(script[:-1]) + [["raise", "EB"]]
             spec = {"script": script, "args": [i, "x"], "kwargs": {"kw": i}}
             for L in layers:
                 if L["kind"] == "poll":
